@@ -47,21 +47,31 @@ namespace c17
   template<typename DA_, bool S_, bool C_>
   void run_syn_job(Ctx& c, int wd_ms, DA_& da, const MeshSpec& ms, const Subset& sub, const Adj& adj, const JobSpec& js, std::size_t nw, int jidx, J& stats)
   {
-    SynJob<S_, C_> inner(ms, js.sched.mode == 0 ? 0 : std::min(js.sched.base_us, 50));
-    Shared sh; sh.sched = js.sched;
-    PJob<SynJob<S_, C_>> job(inner, sh);
-    { Watchdog wd(c, wd_ms); da.assemble(job); }
-    std::string tag = "job" + std::to_string(jidx);
-    LogStats st = check_logs(sh, sub, adj, ms.nc(), S_, C_, nw, tag.c_str());
-    // checksums
-    std::vector<long> exp(ms.nv(), 0); long tot = 0;
-    for(Index c : sub.cells) { tot += SynJob<S_, C_>::weight(c); if(S_) for(int l = 0; l < ms.nvc; ++l) exp[ms.cells[c * Index(ms.nvc) + Index(l)]] += SynJob<S_, C_>::weight(c); }
-    for(Index v = 0; v < ms.nv(); ++v) VF_CHECK(inner.vacc[v] == exp[v], tag << ": vertex accumulator " << v << " is " << inner.vacc[v] << ", serial value " << exp[v] << " (lost update)");
-    VF_CHECK(inner.total == (C_ ? tot : 0), tag << ": combined total " << inner.total << ", serial value " << (C_ ? tot : 0));
-    J s = J::obj(); s.set("tasks", st.tasks); s.set("overlapping_pairs", st.overlaps); stats.add(s);
+    const std::string tag = "job" + std::to_string(jidx);
+    // one attempt = one assemble() of a fresh job + all oracles on it; returns "" or the failure text
+    auto attempt = [&]() -> std::string
+    {
+      SynJob<S_, C_> inner(ms, js.sched.mode == 0 ? 0 : std::min(js.sched.base_us, 50));
+      Shared sh; sh.sched = js.sched;
+      PJob<SynJob<S_, C_>> job(inner, sh);
+      { Watchdog wd(c, wd_ms); da.assemble(job); }
+      try
+      {
+        LogStats st = check_logs(sh, sub, adj, ms.nc(), S_, C_, nw, tag.c_str());
+        // checksums
+        std::vector<long> exp(ms.nv(), 0); long tot = 0;
+        for(Index cl : sub.cells) { tot += SynJob<S_, C_>::weight(cl); if(S_) for(int l = 0; l < ms.nvc; ++l) exp[ms.cells[cl * Index(ms.nvc) + Index(l)]] += SynJob<S_, C_>::weight(cl); }
+        for(Index v = 0; v < ms.nv(); ++v) VF_CHECK(inner.vacc[v] == exp[v], tag << ": vertex accumulator " << v << " is " << inner.vacc[v] << ", serial value " << exp[v] << " (lost update)");
+        VF_CHECK(inner.total == (C_ ? tot : 0), tag << ": combined total " << inner.total << ", serial value " << (C_ ? tot : 0));
+        J s = J::obj(); s.set("tasks", st.tasks); s.set("overlapping_pairs", st.overlaps); stats.add(s);
 #if C17_TSAN
-    VF_CHECK(tsan_reports().load() == 0, tag << ": ThreadSanitizer reported " << tsan_first());
+        VF_CHECK(tsan_reports().load() == 0, tag << ": ThreadSanitizer reported " << tsan_first());
 #endif
+      }
+      catch(vf::Fail& f) { return f.sym; }
+      return "";
+    };
+    confirm_in_child(attempt);
   }
 
   template<typename Shape_> void sched_case(Tape& t, Ctx& c, const SchedOpts& o)
@@ -159,10 +169,10 @@ namespace c17
   inline void add_sched_targets(std::vector<vf::Target>& tg, const std::string& prefix)
   {
     // tiny: 1..16 cells, every worker-count class equally likely (0, 1, 2.., > cells)
-    tg.push_back({ prefix + "tiny", [](Tape& t, Ctx& c) { SchedOpts o; o.max_cells = 16; o.threaded_bias = false; sched_dispatch(t, c, o); }, 80, 0, 60000 });
+    tg.push_back({ prefix + "tiny", [](Tape& t, Ctx& c) { SchedOpts o; o.max_cells = 16; o.threaded_bias = false; sched_dispatch(t, c, o); }, 48, 0, 60000 });
     // sched: up to 1024 cells, mostly >= 2 workers, skewed schedules
-    tg.push_back({ prefix + "sched", [](Tape& t, Ctx& c) { SchedOpts o; o.max_cells = 1024; o.threaded_bias = true; sched_dispatch(t, c, o); }, 80, 0, 60000 });
+    tg.push_back({ prefix + "sched", [](Tape& t, Ctx& c) { SchedOpts o; o.max_cells = 1024; o.threaded_bias = true; sched_dispatch(t, c, o); }, 48, 0, 60000 });
     // big: up to 4096 cells (thorough tier)
-    tg.push_back({ prefix + "big", [](Tape& t, Ctx& c) { SchedOpts o; o.max_cells = 4096; o.threaded_bias = true; sched_dispatch(t, c, o); }, 80, 0, 60000 });
+    tg.push_back({ prefix + "big", [](Tape& t, Ctx& c) { SchedOpts o; o.max_cells = 4096; o.threaded_bias = true; sched_dispatch(t, c, o); }, 48, 0, 60000 });
   }
 } // namespace c17
